@@ -5,11 +5,17 @@ import CifModel.Model.Ladder
     ladder dup <n> <k>                      dup_ustrings on n strings, k-th allocation fails (0 = none)
     ladder clone <shape…> <k>               cif_value_clone of a value of the given shape into a fresh target
     ladder insert <full 0|1> <shape…> <k>   cif_value_insert_element_at, array full or not
-    ladder set <shape…> <k>                 cif_value_set_element_at: clone into the existing element object
+    ladder set <tshape…> <shape…> <k>       cif_value_set_element_at: replace an element of shape <tshape> (built before the
+                                            window) by a clone of a value of shape <shape>
+    ladder packet <flags|-> <k>             cif_packet_create, one name per flag character: n = already normalised,
+                                            r = respelled (original spelling kept in a copy); the code as it is
+    ladder copychar <tshape…> <k>           cif_value_copy_char onto a value of shape <tshape> (built before the window)
+    ladder deser [ <shape…> ] <k>           cif_value_deserialize of the blob of a list value (shapes without M0/M1)
     ladder names <n> <k>                    cif_loop_get_names on a stored loop with n item names (the code as it is:
                                             getNamesPinned)
   shape tokens: S (unknown/na) | C (char) | M0 | M1 (number without / with su) | [ shape* ]
-  answer: `ld rc=<code> allocs=<n> fails=<ids> frees=<sorted ids> live=<sorted ids>` — order-insensitive on purpose:
+  answer: `ld rc=<code> allocs=<n> fails=<ids> frees=<sorted ids> live=<sorted ids> pfrees=<n>` (pfrees = number of
+  releases of blocks that existed before the call) — order-insensitive on purpose:
   the order in which a clean-up ladder releases blocks is not constrained by any property.
 -/
 namespace Driver.Fam.Ladder
@@ -40,6 +46,20 @@ mutual
         | some (sh, r) => (parseShapes fuel r).map (fun (es, r') => (sh :: es, r'))
 end
 
+mutual
+  def toD : Shape → Option DShape
+    | .scalar => some .scalar
+    | .chr => some .chr
+    | .numb _ => none
+    | .lst es => (toDs es).map .lst
+  def toDs : List Shape → Option (List DShape)
+    | [] => some []
+    | e :: es =>
+      match toD e, toDs es with
+      | some a, some b => some (a :: b)
+      | _, _ => none
+end
+
 def isort (l : List Nat) : List Nat := l.foldr ins []
 where ins (x : Nat) : List Nat → List Nat
   | [] => [x]
@@ -47,25 +67,35 @@ where ins (x : Nat) : List Nat → List Nat
 
 def showIds (l : List Nat) : String := if l.isEmpty then "-" else ",".intercalate ((isort l).map toString)
 
-def summary (rc : Nat) (evs : List Ev) : String :=
-  let allocs := evs.filterMap (fun e => match e with | .alloc i => some i | _ => none)
-  let fails := evs.filterMap (fun e => match e with | .fail i => some i | _ => none)
-  let frees := evs.filterMap (fun e => match e with | .free i => some i | _ => none)
+/-- summary of the events of the window; ids are renumbered relative to `base` (= number of requests made before the
+    window); releases of blocks obtained before the window are only counted (`pfrees`) -/
+def summaryW (rc : Nat) (base : Nat) (evs : List Ev) : String :=
+  let allocs := evs.filterMap (fun e => match e with | .alloc i => some (i - base) | _ => none)
+  let fails := evs.filterMap (fun e => match e with | .fail i => some (i - base) | _ => none)
+  let frees := evs.filterMap (fun e => match e with | .free i => if i > base then some (i - base) else none | _ => none)
+  let pfrees := (evs.filter (fun e => match e with | .free i => i ≤ base | _ => false)).length
   let live := allocs.filter (fun i => !frees.contains i)
-  s!"ld rc={if rc == OK then "0" else "E"} allocs={allocs.length} fails={showIds fails} frees={showIds frees} live={showIds live}"
+  s!"ld rc={if rc == OK then "0" else if rc == UNDEFINED then "U" else "E"} allocs={allocs.length} fails={showIds fails} frees={showIds frees} live={showIds live} pfrees={pfrees}"
+
+def summary (rc : Nat) (evs : List Ev) : String := summaryW rc 0 evs
+
+/-- `-` = no names; otherwise one character per name: n = already normalised, r = respelled -/
+def parseFlags (fl : String) : Option (List Bool) :=
+  if fl == "-" then some [] else
+  fl.toList.mapM (fun c => if c == 'n' then some false else if c == 'r' then some true else none)
 
 def handle : Handler
   | ["dup", n, k] => do
       let n ← n.toNat?; let k ← k.toNat?
       let (rc, _, st) := dupUstrings k n
       pure (summary rc st.evs)
-  | ["names", n, k] => do
-      let n ← n.toNat?; let k ← k.toNat?
-      let (rc, _, st) := getNamesPinned k n
-      pure (summary rc st.evs)
-  | ["namesfixed", n, k] => do                 -- the repaired variant (used when testing the proposed patch by hand)
+  | ["names", n, k] => do                      -- the code as repaired by /repo commit 0850ab1
       let n ← n.toNat?; let k ← k.toNat?
       let (rc, _, st) := getNames k n
+      pure (summary rc st.evs)
+  | ["namespinned", n, k] => do                -- the pinned behaviour (node leak), kept for the counterexample theorem
+      let n ← n.toNat?; let k ← k.toNat?
+      let (rc, _, st) := getNamesPinned k n
       pure (summary rc st.evs)
   | "clone" :: rest => do
       let (sh, r) ← parseShape (rest.length + 1) rest
@@ -84,13 +114,48 @@ def handle : Handler
           let (rc, _, st) := insertElement k full sh
           pure (summary rc st.evs)
       | _ => none
-  | "set" :: rest => do
-      let (sh, r) ← parseShape (rest.length + 1) rest
+  | ["packet", fl, k] => do                    -- the code as repaired by /repo commit 07fe35a
+      let k ← k.toNat?
+      let flags ← parseFlags fl
+      let (rc, _, st) := packetCreate k flags
+      pure (summary rc st.evs)
+  | ["packetpinned", fl, k] => do              -- the pinned behaviour (rc=U: undefined behaviour when uthash's table request fails)
+      let k ← k.toNat?
+      let flags ← parseFlags fl
+      let (rc, _, st) := packetCreatePinned k flags
+      pure (summary rc st.evs)
+  | "copychar" :: rest => do
+      let (tsh, r) ← parseShape (rest.length + 1) rest
       match r with
       | [k] => do
           let k ← k.toNat?
-          let (rc, _, st) := setElement k sh
+          match clone 0 tsh with
+          | (none, _) => none
+          | (some old, s0) =>
+            let (rc, _, st) := copyChar (if k = 0 then 0 else s0.count + k) old s0
+            pure (summaryW rc s0.count (st.evs.drop s0.evs.length))
+      | _ => none
+  | "deser" :: rest => do                       -- top level must be a list; no numbers
+      let (sh, r) ← parseShape (rest.length + 1) rest
+      match sh, r with
+      | .lst es, [k] => do
+          let k ← k.toNat?
+          let ds ← toDs es
+          let (rc, _, st) := deserialize k ds
           pure (summary rc st.evs)
+      | _, _ => none
+  | "set" :: rest => do
+      -- the target element is built first (fault-free clone of <tshape> from the empty state); the window starts after it
+      let (tsh, r0) ← parseShape (rest.length + 1) rest
+      let (sh, r) ← parseShape (r0.length + 1) r0
+      match r with
+      | [k] => do
+          let k ← k.toNat?
+          match clone 0 tsh with
+          | (none, _) => none
+          | (some old, s0) =>
+            let (rc, _, st) := setElement (if k = 0 then 0 else s0.count + k) old sh s0
+            pure (summaryW rc s0.count (st.evs.drop s0.evs.length))
       | _ => none
   | _ => none
 
